@@ -166,3 +166,34 @@ R.contract(
     modifies=["self._x25519_private_key", "self._x448_private_key", "self._ec_private_keys"],
     loops={0: dict(invariant=["0 <= _i0"], modifies=["self._x25519_private_key", "self._x448_private_key", "self._ec_private_keys"])},
 )
+
+
+# ------------------------------------------------------------------------------------------------ server: the pre_shared_key block (C05)
+# Block contract on the PSK part of _server_handle_hello (located by the statement that records a resumed session, widened to
+# its enclosing `if`): for every ClientHello - whatever its pre_shared_key extension holds (no identity, several, binders that
+# do not match the identities) - the block raises only alerts (and what the application's callbacks declare): in particular
+# indexing identities[0] / binders is guarded.  The rest of _server_handle_hello is not under contract.
+# the hash algorithm object of a key schedule (cryptography.hazmat.primitives.hashes.SHA256 / SHA384): only digest_size is read
+R.extern_module(
+    "cryptography_hash_model.py",
+    """
+class HashAlgorithmModel:
+    digest_size: int
+""",
+)
+R.field_types("HashAlgorithmModel", digest_size="int")
+R.invariant("HashAlgorithmModel", ["self.digest_size == 32 or self.digest_size == 48"])
+R.after_load(lambda reg: reg.field_types("KeySchedule", algorithm="HashAlgorithmModel"))  # contracts/tls_state.py (loaded later) declares it as Any
+R.contract(
+    "Context._server_handle_hello@psk",
+    region={"anchor": "writes:_session_resumed"},
+    params={"peer_hello": "ClientHello", "input_buf": "Buffer", "cipher_suite": "CipherSuite", "psk_key_exchange_mode": "Optional[PskKeyExchangeMode]", "pre_shared_key": "Optional[int]"},
+    use_invariant=False,
+    # the cipher suite was negotiated from the server's own list a few statements earlier (block @negotiate): one of the
+    # three suites the key schedule knows
+    assume_pre=["cipher_suite == CipherSuite.AES_128_GCM_SHA256 or cipher_suite == CipherSuite.AES_256_GCM_SHA384 or cipher_suite == CipherSuite.CHACHA20_POLY1305_SHA256"],
+    # BufferReadError (a binder whose length does not fit the message: data_slice out of range) is converted into
+    # AlertDecodeError by Context.handle_message, like every BufferReadError of the handlers
+    raises={"AlertHandshakeFailure": None, "CallbackError": None, "MemoryError": None, "BufferReadError": None},
+    modifies=["self.key_schedule", "self._session_resumed", "self.early_data_accepted", "self.g_key_log", "KeySchedule.g_hash[*]", "KeySchedule.generation[*]", "KeySchedule.secret[*]"],
+)
